@@ -53,6 +53,10 @@ type c09Client struct {
 	err     error
 
 	delPark *c09DeletePark // set while the client sits in the cache delete callback
+
+	ctx       context.Context // request context (nil: Background)
+	cancel    context.CancelFunc
+	cancelled bool
 }
 
 func (c *c09Client) isDone() (bool, error) {
@@ -67,9 +71,11 @@ func (c *c09Client) String() string {
 
 type c09CtlEnv struct {
 	w       *c09World
-	c       *DnsController
+	c       *DnsController // the current generation's facade
 	mode    string
 	restore func()
+	routing *componentdns.Dns
+	option  func() *DnsControllerOption
 }
 
 func c09Routing(mode string) (*componentdns.Dns, error) {
@@ -109,15 +115,18 @@ func c09NewCtlEnv(mode string) (*c09CtlEnv, error) {
 		return nil, err
 	}
 	routing.InitUpstreams(context.Background())
-	ctl, err := NewDnsController(routing, &DnsControllerOption{
-		Log:               c09Log(),
-		LifecycleContext:  context.Background(),
-		NewCache:          c09NewCacheFn,
-		BestDialerChooser: c09BestDialer,
-		// the production seam between a client's own cache lookup (which evicts an
-		// expired entry) and its entry into the singleflight
-		CacheDeleteCallback: w.cacheDeleteCallback,
-	})
+	option := func() *DnsControllerOption {
+		return &DnsControllerOption{
+			Log:               c09Log(),
+			LifecycleContext:  context.Background(),
+			NewCache:          c09NewCacheFn,
+			BestDialerChooser: c09BestDialer,
+			// the production seam between a client's own cache lookup (which evicts an
+			// expired entry) and its entry into the singleflight
+			CacheDeleteCallback: w.cacheDeleteCallback,
+		}
+	}
+	ctl, err := NewDnsController(routing, option())
 	if err != nil {
 		return nil, err
 	}
@@ -138,7 +147,7 @@ func c09NewCtlEnv(mode string) (*c09CtlEnv, error) {
 	}
 	orig := dnsForwarderFactory
 	dnsForwarderFactory = w.factory
-	return &c09CtlEnv{w: w, c: ctl, mode: mode, restore: func() { dnsForwarderFactory = orig }}, nil
+	return &c09CtlEnv{w: w, c: ctl, mode: mode, restore: func() { dnsForwarderFactory = orig }, routing: routing, option: option}, nil
 }
 
 func (e *c09CtlEnv) teardown() {
@@ -194,6 +203,7 @@ func c09GenClients(t *rapid.T, mode string) []*c09Client {
 		m.RecursionDesired = true
 		m.Question = []dnsmessage.Question{{Name: cl.name, Qtype: cl.qtype, Qclass: dnsmessage.ClassINET}}
 		cl.msg = m
+		cl.ctx, cl.cancel = context.WithCancel(context.Background())
 		out[i] = cl
 	}
 	return out
@@ -209,8 +219,13 @@ func (e *c09CtlEnv) startClient(cl *c09Client) {
 		routingResult: &bpfRoutingResult{},
 	}
 	req.src = req.realSrc
+	ctx := cl.ctx
+	if ctx == nil {
+		ctx = context.Background()
+	}
+	ctl := e.c // the facade that is current when the query arrives
 	go func() {
-		err := e.c.HandleWithResponseWriter_(context.Background(), cl.msg, req, cl.w)
+		err := ctl.HandleWithResponseWriter_(ctx, cl.msg, req, cl.w)
 		cl.mu.Lock()
 		cl.done, cl.err = true, err
 		cl.mu.Unlock()
@@ -293,6 +308,16 @@ func c09ControllerCase(t *rapid.T) {
 			cl.msg = m
 		}
 	}
+	for _, cl := range clients {
+		if cl.cancel == nil {
+			cl.ctx, cl.cancel = context.WithCancel(context.Background())
+		}
+	}
+	defer func() {
+		for _, cl := range clients {
+			cl.cancel()
+		}
+	}()
 	env, err := c09NewCtlEnv(mode)
 	if err != nil {
 		t.Fatalf("harness: cannot build controller: %v", err)
@@ -403,6 +428,11 @@ func c09ControllerCase(t *rapid.T) {
 		// resolution over: every waiter must have its result now, and the same one.
 		nOK, nErr := 0, 0
 		for _, cl := range before {
+			if cl.cancelled {
+				// its own request was cancelled: whatever it gets is accepted (what it
+				// was sent, if anything, is still validated at the end)
+				continue
+			}
 			d, cerr := cl.isDone()
 			if !d {
 				fail("%s is still waiting although the upstream resolution for %s ended (%s)", cl, key, c09ActString(act))
@@ -460,6 +490,7 @@ func c09ControllerCase(t *rapid.T) {
 		return nil
 	}
 
+	reloads := 0
 	started := 0
 	if directed {
 		// Aimed prefix: P resolves the question with a short TTL; the entry expires; B
@@ -503,6 +534,18 @@ func c09ControllerCase(t *rapid.T) {
 		if len(opts) == 0 {
 			break
 		}
+		var cancellable []*c09Client
+		for _, cl := range clients {
+			if d, _ := cl.isDone(); cl.started && !d && !cl.cancelled {
+				cancellable = append(cancellable, cl)
+			}
+		}
+		if len(cancellable) > 0 {
+			opts = append(opts, "cancel")
+		}
+		if reloads < 2 {
+			opts = append(opts, "reload")
+		}
 		opts = append(opts, "advance")
 		switch rapid.SampledFrom(opts).Draw(t, "step") {
 		case "start":
@@ -515,6 +558,56 @@ func c09ControllerCase(t *rapid.T) {
 				}
 			}
 			startStep(cl, rapid.IntRange(0, 1).Draw(t, "parkIfItEvicts") == 0)
+		case "cancel":
+			cl := cancellable[rapid.IntRange(0, len(cancellable)-1).Draw(t, "whichClient")]
+			var others []*c09Client
+			for _, o := range inflightOfKey(cl.key) {
+				if o != cl && !o.cancelled {
+					others = append(others, o)
+				}
+			}
+			var flight *c09Call
+			for _, c := range w.unreturned() {
+				if env.callKey(c) == cl.key {
+					flight = c
+				}
+			}
+			trace = append(trace, fmt.Sprintf("cancel the request context of %s (flight parked upstream: %v, other waiters: %d)", cl, flight != nil, len(others)))
+			cl.cancelled = true
+			cl.cancel()
+			classes["client-cancelled"] = true
+			if flight != nil {
+				classes["cancel-with-flight"] = true
+				faulty = true
+			}
+			synctest.Wait()
+			if flight != nil && len(others) > 0 {
+				classes["cancel-with-other-waiters"] = true
+				w.mu.Lock()
+				gone := flight.ctxCancelled
+				w.mu.Unlock()
+				if gone {
+					fail("cancelling the request of %s aborted the shared upstream resolution for %s although %d other client(s) are waiting for it (the healthy upstream's answer must reach every waiter)", cl, cl.key, len(others))
+				}
+				for _, o := range others {
+					if d, oerr := o.isDone(); d && oerr != nil {
+						fail("%s failed (%v) because the request of %s was cancelled, although its upstream resolution was healthy", o, oerr, cl)
+					}
+				}
+			}
+		case "reload":
+			reloads++
+			inflight := len(w.unreturned())
+			trace = append(trace, fmt.Sprintf("ReuseForReload (same configuration) with %d upstream call(s) parked; later clients use the new facade", inflight))
+			next, rerr := env.c.ReuseForReload(env.option(), env.routing)
+			if rerr != nil || next == nil {
+				fail("harness: ReuseForReload: %v", rerr)
+			}
+			env.c = next
+			classes["reload"] = true
+			if inflight > 0 {
+				classes["reload-with-flights"] = true
+			}
 		case "unpark":
 			ps := w.parkedDeletes()
 			p := ps[rapid.IntRange(0, len(ps)-1).Draw(t, "whichPark")]
